@@ -237,8 +237,45 @@ def sc_no_ubm(B):
     return o
 
 
+def sc_shared_kwargs(B):
+    """two estimators configured with the SAME ubm_kwargs dict but different seeds: each builds its
+    UBM from the caller's settings only; nothing of the first training leaks into the second, and
+    the caller's dict is not modified"""
+    famod = B.mod("factor_analysis")
+    seen = []
+
+    class Stop(Exception):
+        pass
+
+    class Recorder:
+        _means = None
+
+        def __init__(self, *a, **k):
+            seen.append(dict(k))
+            raise Stop()
+
+    shared = dict(n_gaussians=2, max_fitting_steps=3)
+    before = dict(shared)
+    saved = famod.GMMMachine
+    famod.GMMMachine = Recorder
+    try:
+        for seed in (1, 2):
+            m = famod.ISVMachine(r_U=1, ubm=None, ubm_kwargs=shared, random_state=seed)
+            try:
+                m.initialize_using_array(B.np.zeros((4, 1)))
+            except Stop:
+                pass
+    finally:
+        famod.GMMMachine = saved
+    o = Outcome()
+    o.claim("callers-dict-unchanged", shared == before)
+    o.claim("second-ubm-built-from-its-own-settings", len(seen) == 2 and {k: v for k, v in seen[1].items() if k != "random_state"} == before and seen[1].get("random_state", 2) == 2 and seen[0].get("random_state", 1) == 1)
+    return o
+
+
 def job_seed(P):
     P.run("construct-without-ubm", sc_no_ubm, {}, validate=1)
+    P.run("shared-ubm-kwargs", sc_shared_kwargs, {}, validate=1)
     for kind in ("isv", "jfa"):
         for seed in (0, 5):
             P.run("seed-%s-%d" % (kind, seed), sc_seed_fa, dict(kind=kind, seed=seed), validate=0)
